@@ -34,6 +34,41 @@ Qed.
 Lemma abs_methods_no_listreq pok ms : existsb m_list_request (map (abs_method pok) ms) = false.
 Proof. induction ms as [|m r IH]; cbn; [reflexivity|exact IH]. Qed.
 
+(* induction over the nested tfield tree (Entity.v): leaves, and inline schemas with Forall on their fields *)
+Section TfieldInd.
+  Variable P : tfield -> Prop.
+  Hypothesis Hleaf : forall n k r o d, (match k with TKInline _ _ _ _ => False | _ => True end) -> P (TF n k r o d).
+  Hypothesis Hinl : forall n ik c fs os r o d, Forall P fs -> P (TF n (TKInline ik c fs os) r o d).
+  Fixpoint tfield_forall_ind (t : tfield) : P t :=
+    match t with
+    | TF n k r o d =>
+        match k return P (TF n k r o d) with
+        | TKInline ik c fs os =>
+            Hinl n ik c fs os r o d
+                 ((fix go (l : list tfield) : Forall P l :=
+                     match l with
+                     | [] => Forall_nil P
+                     | x :: rest => Forall_cons x (tfield_forall_ind x) (go rest)
+                     end) fs)
+        | TK i => Hleaf n (TK i) r o d I
+        | TKArray i => Hleaf n (TKArray i) r o d I
+        | TKMap i => Hleaf n (TKMap i) r o d I
+        end
+    end.
+End TfieldInd.
+
+Lemma inl_decl_no_listreq t k ps td : In td (inl_decl t k ps) -> decl_has_list_request (snd td) = false.
+Proof.
+  unfold inl_decl. destruct (N.eqb k 2); [contradiction|]. intros [<-|[]]. cbn [snd]. destruct (N.eqb k 1); reflexivity.
+Qed.
+Lemma tree_decls_no_listreq defs t tf : forall td, In td (tree_decls defs t tf) -> decl_has_list_request (snd td) = false.
+Proof.
+  induction tf as [n k r o d Hk|n ik c fs os r o d IH] using tfield_forall_ind; intros td H.
+  - destruct k; try contradiction; destruct H.
+  - cbn [tree_decls] in H. apply in_app_or in H. destruct H as [H|H]; [eapply inl_decl_no_listreq; exact H|].
+    apply in_flat_map in H. destruct H as [x [Hx H]]. rewrite Forall_forall in IH. exact (IH x Hx td H).
+Qed.
+
 Lemma comp_decls_no_listreq defs pok c td : In td (comp_decls defs pok c) -> decl_has_list_request (snd td) = false.
 Proof.
   destruct c as [file m|n vs|file s]; cbn [comp_decls].
@@ -42,8 +77,9 @@ Proof.
     + apply in_map_iff in H. destruct H as [x [<- _]]. reflexivity.
     + unfold inline_decls in H. apply in_flat_map in H. destruct H as [f [_ H]].
       destruct (f_inline f) as [il|]; [|contradiction].
-      destruct (N.eqb (il_kind il) 2); [contradiction|]. destruct H as [<-|[]].
-      cbn [snd]. destruct (N.eqb (il_kind il) 1); reflexivity.
+      destruct (il_tree il) as [|tf0 tfs]; [eapply inl_decl_no_listreq; exact H|].
+      apply in_app_or in H. destruct H as [H|H]; [eapply inl_decl_no_listreq; exact H|].
+      apply in_flat_map in H. destruct H as [x [_ H]]. eapply tree_decls_no_listreq; exact H.
   - intros [<-|[]]. reflexivity.
   - destruct (Entity.sv_ann s); intros [<-|[]]; cbn; try reflexivity; apply abs_methods_no_listreq.
 Qed.
@@ -235,12 +271,56 @@ Qed.
 Lemma abs_methods_no_list_request pok ms : no_list_request (map (abs_method pok) ms).
 Proof. intros m Hm. apply in_map_iff in Hm. destruct Hm as [x [<- _]]. reflexivity. Qed.
 
-(* a field and, when its type is defined inline, the fields of that definition are well-formed *)
+(* a field and, when its type is defined inline, the fields of that definition (at every depth for the tree form)
+   are well-formed *)
 Definition ofield_ok_deep (f : ofield) : bool :=
   ofield_ok f && match f_inline f with
-                 | Some il => forallb (fun sf => ofield_ok (of_sfield sf)) (il_fields il)
+                 | Some il => forallb (fun sf => ofield_ok (of_sfield sf)) (il_fields il) && forallb tfield_ok (il_tree il)
                  | None => true
                  end.
+
+Lemma otype_of_item_not_map i : match otype_of_item i with Entity.TMap _ => False | _ => True end.
+Proof. destruct i; exact I. Qed.
+
+(* a field of an inline schema of the tree form is accepted when it resolves and is not optional + required *)
+Lemma of_tfield_accepted defs x :
+  tfield_resolves defs x = true -> tfield_ok x = true -> prop_accepted (abs_prop defs (of_tfield x)) = true.
+Proof.
+  intros Hr Hok. destruct x as [n k r o d]. cbn [tfield_ok] in Hok. apply andb_prop in Hok. destruct Hok as [Hro _].
+  apply negb_true_iff in Hro. cbn [tfield_resolves] in Hr.
+  apply abs_prop_accepted.
+  - destruct k as [i|i|i|ik c fs os]; cbn [of_tfield f_type ref_resolves]; try exact Hr.
+    unfold inline_type. destruct (N.eqb c 2); reflexivity.
+  - unfold ofield_ok. destruct k as [i|i|i|ik c fs os]; cbn [of_tfield f_optional f_required f_primary f_type].
+    + rewrite orb_false_r, Hro. cbn. pose proof (otype_of_item_not_map i). destruct (otype_of_item i); try reflexivity; contradiction.
+    + cbn. pose proof (otype_of_item_not_map i). destruct (otype_of_item i); try reflexivity; contradiction.
+    + cbn. pose proof (otype_of_item_not_map i). destruct (otype_of_item i); try reflexivity; contradiction.
+    + rewrite orb_false_r. replace (o && N.eqb c 0 && r) with (o && r && N.eqb c 0) by (destruct o, r, (N.eqb c 0); reflexivity).
+      rewrite Hro. cbn. unfold inline_type. destruct (N.eqb c 2); reflexivity.
+Qed.
+Lemma tprops_accepted defs fs :
+  forallb (tfield_resolves defs) fs = true -> forallb tfield_ok fs = true -> forallb prop_accepted (tprops defs fs) = true.
+Proof.
+  intros Hr Hok. apply forallb_forall. intros p Hp. unfold tprops in Hp. apply in_map_iff in Hp. destruct Hp as [x [<- Hx]].
+  rewrite forallb_forall in Hr, Hok. apply of_tfield_accepted; [exact (Hr x Hx)|exact (Hok x Hx)].
+Qed.
+Lemma inl_decl_nerr t k ps td : forallb prop_accepted ps = true -> In td (inl_decl t k ps) -> d_nerr (decl_state (snd td)) = 0.
+Proof.
+  intros Hps. unfold inl_decl. destruct (N.eqb k 2); [contradiction|]. intros [<-|[]]. cbn [snd].
+  destruct (N.eqb k 1); apply nerr_decl; try reflexivity; exact Hps.
+Qed.
+Lemma tree_decls_nerr defs t tf :
+  tfield_resolves defs tf = true -> tfield_ok tf = true ->
+  forall td, In td (tree_decls defs t tf) -> d_nerr (decl_state (snd td)) = 0.
+Proof.
+  induction tf as [n k r o d Hk|n ik c fs os r o d IH] using tfield_forall_ind; intros Hr Hok td H.
+  - destruct k; try contradiction; destruct H.
+  - cbn [tfield_resolves] in Hr. cbn [tfield_ok] in Hok. apply andb_prop in Hok. destruct Hok as [_ Hok].
+    cbn [tree_decls] in H. apply in_app_or in H. destruct H as [H|H].
+    + eapply inl_decl_nerr; [|exact H]. apply tprops_accepted; assumption.
+    + apply in_flat_map in H. destruct H as [x [Hx H]]. rewrite Forall_forall in IH.
+      rewrite forallb_forall in Hr, Hok. exact (IH x Hx (Hr x Hx) (Hok x Hx) td H).
+Qed.
 
 Lemma comp_decls_nerr defs pok c :
   forallb (field_resolves defs) (Entity.fields_of [c]) = true ->
@@ -252,12 +332,18 @@ Proof.
   { intros f Hf. rewrite forallb_forall in Hr, Hok. specialize (Hr f Hf). specialize (Hok f Hf).
     unfold field_resolves in Hr. apply andb_prop in Hr. unfold ofield_ok_deep in Hok. apply andb_prop in Hok.
     apply abs_prop_accepted; [exact (proj1 Hr)|exact (proj1 Hok)]. }
-  assert (Hinl : forall f il sf, In f (Entity.fields_of [c]) -> f_inline f = Some il -> In sf (il_fields il) ->
-                  prop_accepted (abs_prop defs (of_sfield sf)) = true).
-  { intros f il sf Hf Hil Hsf. rewrite forallb_forall in Hr, Hok. specialize (Hr f Hf). specialize (Hok f Hf).
+  assert (Hinl : forall f il, In f (Entity.fields_of [c]) -> f_inline f = Some il ->
+                  (il_tree il = [] -> forallb prop_accepted (map (fun sf => abs_prop defs (of_sfield sf)) (il_fields il)) = true)
+                  /\ forallb (tfield_resolves defs) (il_tree il) = true /\ forallb tfield_ok (il_tree il) = true).
+  { intros f il Hf Hil. rewrite forallb_forall in Hr, Hok. specialize (Hr f Hf). specialize (Hok f Hf).
     unfold field_resolves in Hr. apply andb_prop in Hr. destruct Hr as [_ Hr]. rewrite Hil in Hr.
     unfold ofield_ok_deep in Hok. apply andb_prop in Hok. destruct Hok as [_ Hok]. rewrite Hil in Hok.
-    rewrite forallb_forall in Hr, Hok. apply abs_prop_accepted; [exact (Hr sf Hsf)|exact (Hok sf Hsf)]. }
+    apply andb_prop in Hok. destruct Hok as [Hokf Hokt].
+    destruct (il_tree il) as [|tf0 tfs] eqn:Et.
+    - split; [|split; reflexivity]. intros _. apply forallb_forall. intros p Hp. apply in_map_iff in Hp.
+      destruct Hp as [sf [<- Hsf]]. rewrite forallb_forall in Hr, Hokf.
+      apply abs_prop_accepted; [exact (Hr sf Hsf)|exact (Hokf sf Hsf)].
+    - split; [discriminate|]. split; [exact Hr|exact Hokt]. }
   destruct c as [file m|n vs|file s]; cbn [comp_decls] in Hin.
   - assert (Hfs : forall l, incl l (Entity.fields_of [CMsg file m]) -> forallb prop_accepted (map (abs_prop defs) l) = true).
     { intros l Hl. apply forallb_forall. intros p Hp. apply in_map_iff in Hp. destruct Hp as [f [<- Hf]]. apply Hacc, Hl, Hf. }
@@ -272,11 +358,14 @@ Proof.
         intros x Hx. apply in_flat_map. exists nst. split; assumption.
       * unfold inline_decls in Hin. apply in_flat_map in Hin. destruct Hin as [f [Hf Hin]].
         destruct (f_inline f) as [il|] eqn:Eil; [|contradiction].
-        destruct (N.eqb (il_kind il) 2); [contradiction|]. destruct Hin as [<-|[]]. cbn [snd].
-        assert (Hps : forallb prop_accepted (map (fun sf => abs_prop defs (of_sfield sf)) (il_fields il)) = true).
-        { apply forallb_forall. intros p Hp. apply in_map_iff in Hp. destruct Hp as [sf [<- Hsf]].
-          apply (Hinl f il sf); [rewrite Hall; exact Hf|exact Eil|exact Hsf]. }
-        destruct (N.eqb (il_kind il) 1); apply nerr_decl; try reflexivity; exact Hps.
+        assert (Hf' : In f (Entity.fields_of [CMsg file m])) by (rewrite Hall; exact Hf).
+        destruct (Hinl f il Hf' Eil) as (Hflat & Htr & Htok).
+        destruct (il_tree il) as [|tf0 tfs] eqn:Et.
+        -- eapply inl_decl_nerr; [|exact Hin]. apply Hflat. reflexivity.
+        -- apply in_app_or in Hin. destruct Hin as [Hin|Hin].
+           ++ eapply inl_decl_nerr; [|exact Hin]. apply tprops_accepted; assumption.
+           ++ apply in_flat_map in Hin. destruct Hin as [x [Hx Hin]].
+              rewrite forallb_forall in Htr, Htok. exact (tree_decls_nerr defs _ x (Htr x Hx) (Htok x Hx) td Hin).
   - destruct Hin as [<-|[]]. apply nerr_decl; reflexivity.
   - cbn [comp_clean] in Hc. destruct (Entity.sv_ann s).
     + destruct Hin as [<-|[]]. cbn [snd decl_state]. apply andb_prop in Hc. destruct Hc as [-> Hv].
